@@ -307,6 +307,15 @@ func genIdxModel(g GenDesc, class string, outs []Desc) (gd string, flips string,
 			fl = append(fl, hx.CoqBool(idx[q+1] < idx[q+2]))
 		}
 		return fmt.Sprintf("(GTube %d%%nat %d%%nat)", geti(g, 0), len(g.P)/3), "[" + strings.Join(fl, ";") + "]", true
+	case "quad":
+		return "GQuad", "[]", true
+	case "extrude_line":
+		return fmt.Sprintf("(GRibbon %d%%nat)", len(g.P)/3), "[]", true
+	case "extrude_shape", "extrude_closed_shape":
+		if len(g.P2) < 2 {
+			return "", "", false // an empty stencil gives a mesh without vertices: nverts is read off no attribute
+		}
+		return fmt.Sprintf("(GShape %d%%nat %d%%nat %s)", len(g.P2)/2, len(g.P)/3, hx.CoqBool(g.Gen == "extrude_closed_shape")), "[]", true
 	}
 	return "", "", false
 }
